@@ -143,6 +143,7 @@ class _HalfReturn(Exception):
 class Events:
     """side information recorded during interpretation (used by typing rules)"""
     def __init__(self):
+        self.astype = []            # (function, line, dtype text, kind) of x.astype(T) calls
         self.noncovariant = []   # (lineno, description)
         self.neighbour_access = []   # element-wise violations
         self.inlined = []
@@ -583,7 +584,7 @@ class Interp:
             return ("method", obj, a)
         if isinstance(obj, ParamDict) and a in ("get", "keys"):
             return ("method", obj, a)
-        if a in ("copy", "append", "keys") or a == "T":
+        if a in ("copy", "append", "keys", "astype") or a == "T":
             return ("method", obj, a)
         raise AnalysisError("%s:%d unsupported attribute .%s" % (func.qualname, node.lineno, a))
 
@@ -939,6 +940,11 @@ class Interp:
             _, obj, name = f
             if name == "copy":
                 return obj.copy() if isinstance(obj, SArr) else obj
+            if name == "astype" and len(args) == 1:
+                # value unchanged in real arithmetic; the conversion is recorded for the dtype rules
+                t = args[0]
+                self.ev.astype.append((func.qualname, ln, getattr(t, "name", repr(t)), "vector" if isinstance(obj, Vec) else "value"))
+                return obj
             if name == "append" and isinstance(obj, list):
                 obj.append(args[0])
                 return None
